@@ -57,8 +57,8 @@ func tryScenario(sc *Scenario, prev []string, prop, oracle string, fresh int) *f
 func dropTask(sc *Scenario, t int) *Scenario {
 	c := cloneScenario(sc)
 	c.Build = dropTaskFrom(c.Build, t)
-	if c.Phase2 != nil {
-		c.Phase2.Build = dropTaskFrom(c.Phase2.Build, t)
+	for _, ph := range c.ExtraPhases() {
+		ph.Build = dropTaskFrom(ph.Build, t)
 	}
 	return c
 }
@@ -89,10 +89,11 @@ func dropTaskFrom(calls []Call, t int) []Call {
 }
 
 func allCalls(sc *Scenario) []Call {
-	if sc.Phase2 == nil {
-		return sc.Build
+	calls := append([]Call(nil), sc.Build...)
+	for _, ph := range sc.ExtraPhases() {
+		calls = append(calls, ph.Build...)
 	}
-	return append(append([]Call(nil), sc.Build...), sc.Phase2.Build...)
+	return calls
 }
 
 func mentions(sc *Scenario) []bool {
@@ -119,16 +120,19 @@ func candidates(sc *Scenario) []*Scenario {
 		}
 	}
 	add(func(c *Scenario) bool { ok := c.Graphs > 1; c.Graphs = 1; return ok })
-	add(func(c *Scenario) bool { ok := c.Phase2 != nil; c.Phase2 = nil; return ok })
-	if sc.Phase2 != nil {
-		for i := range sc.Phase2.Build {
+	add(func(c *Scenario) bool { ok := c.Phase3 != nil; c.Phase3 = nil; return ok })
+	add(func(c *Scenario) bool { ok := c.Phase2 != nil; c.Phase2, c.Phase3 = c.Phase3, nil; return ok })
+	for pi, ph := range sc.ExtraPhases() {
+		pi := pi
+		for i := range ph.Build {
 			i := i
 			add(func(c *Scenario) bool {
-				c.Phase2.Build = append(c.Phase2.Build[:i:i], c.Phase2.Build[i+1:]...)
+				p := c.ExtraPhases()[pi]
+				p.Build = append(p.Build[:i:i], p.Build[i+1:]...)
 				return true
 			})
 		}
-		add(func(c *Scenario) bool { ok := c.Phase2.MaxPar != 0; c.Phase2.MaxPar = 0; return ok })
+		add(func(c *Scenario) bool { p := c.ExtraPhases()[pi]; ok := p.MaxPar != 0; p.MaxPar = 0; return ok })
 	}
 	add(func(c *Scenario) bool {
 		ok := c.Cancel.Kind != "none" && c.Cancel.Kind != ""
